@@ -95,7 +95,7 @@ def nontrivial(prop, prog, ref, cfg, G):
     return ninst >= 4
 
 
-def run_one(exe, workdir, tag, prog, Guser, cfg, props, backend):
+def run_one(exe, workdir, tag, prog, Guser, cfg, props, backend, dynamic=False):
     """-> (violations [(prop,msg)], status str)"""
     Gfull, ntd, nte = layout_globals(prog, Guser)
     P = cfg.get("ranks", 1)
@@ -151,6 +151,11 @@ def run_one(exe, workdir, tag, prog, Guser, cfg, props, backend):
         if hang and tries < max_tries:
             tq *= 2
             continue
+        if dynamic and not hang and P > 1 and sum(expected) > 0 and not rr.recs and not os.environ.get("PTG_INCLUDE_KNOWN"):
+            # known finding C05-K1: with ptgpp -D (four-counter termination detection) a multi-rank run sometimes returns from
+            # parsec_context_wait on every rank before a single task has run.  This observation -- and only this one: every rank
+            # FINISHED, not one task record -- is counted and set aside; any other outcome of a -D run is judged as usual.
+            return [], "excluded_known_C05-K1_dynamic_termdet_terminated_before_any_task", ref
         v = ptgrun.judge(prog, ref, rr, cfg, set(props))
         return v, ("hang" if hang else "ok"), ref
 
@@ -226,7 +231,7 @@ def make_test(args, workroot):
             ninst = data.draw(sint(max(1, args.instances // 2), args.instances))
             for k in range(ninst):
                 G, cfg = draw_instance(data.draw, prog, profile, props[0])
-                v, status, ref = run_one(exe, wd, "i%d" % k, prog, G, cfg, props, backend)
+                v, status, ref = run_one(exe, wd, "i%d" % k, prog, G, cfg, props, backend, dynamic)
                 if status.startswith(("excluded", "skipped")):
                     STATS.label(status)       # not executed: neither an evaluation nor a non-trivial case
                     continue
@@ -276,8 +281,8 @@ def replay(path, props):
             print("REPLAY-PASS")
             return 0
         bad = None
-        for k in range(3):
-            v, status, ref = run_one(exe, wd, "r%d" % k, prog, case["G"], case["cfg"], props, case.get("backend"))
+        for k in range(int(os.environ.get("PTG_REPLAY_RUNS", "3"))):     # timing-dependent known findings ask for more runs
+            v, status, ref = run_one(exe, wd, "r%d" % k, prog, case["G"], case["cfg"], props, case.get("backend"), case.get("dynamic", False))
             if v:
                 bad = v[0]
                 break
